@@ -89,6 +89,8 @@ func WarmBegin()                                { panic("intrinsic") }
 func WarmEnd()                                  { panic("intrinsic") }
 func Accepts(cond bool, label string)          { panic("intrinsic") }
 func TablesDropped() int                       { panic("intrinsic") }
+func SchemaExecs() int                         { panic("intrinsic") }
+func SchemaNotIdempotent() int                 { panic("intrinsic") }
 func GrpcRegisteredImpl(i int) any             { panic("intrinsic") }
 func HttpSentTimeout(i int) int64              { panic("intrinsic") }
 func SqlPool(setting string) int               { panic("intrinsic") }
@@ -106,6 +108,9 @@ func HttpErrorCode(i int) int                  { panic("intrinsic") }
 func Lifecycle() string                        { panic("intrinsic") }
 func SameDatum(a, b any) bool                  { panic("intrinsic") }
 func IgnoreGo()                                { panic("intrinsic") }
+func GoStarted() int                           { panic("intrinsic") }
+func GoStartedName(i int) string               { panic("intrinsic") }
+func GoStartedOn(i int, recv any) bool         { panic("intrinsic") }
 func SchedulerCapacity(k int)                  { panic("intrinsic") }
 func SchedulerRan()                            { panic("intrinsic") }
 func SchedulerMayRefuse()                      { panic("intrinsic") }
